@@ -48,7 +48,18 @@ def prepare(tier):  # pylint: disable=unused-argument
     return {'phase': 'explore'}
 
 
-def generate(rng, index, tier, extra):  # pylint: disable=unused-argument
+def generate(rng, index, tier, extra):
+    try:
+        return _generate(rng, index, tier, extra)
+    except workload.SenderRejected:
+        # the sender of a stream channel is unusable on this tree (not this property's concern): send a datagram
+        path = rng.choice(corpus.class_paths())
+        raw = rng.choice(corpus.accepted(path) or corpus.rejected(path))
+        return {'kind': 'dgram', 'cls': path, 'hex': raw.hex(), 'faults': wirefault.gen_faults(rng, raw),
+                'entry': 'parse_immutable', 'trailing': '', 'junk': '00'}
+
+
+def _generate(rng, index, tier, extra):  # pylint: disable=unused-argument
     if extra and extra.get('phase') == 'sweep':
         path, hexdata = sweep_list()[index]
         return {'kind': 'sweep', 'cls': path, 'hex': hexdata}
